@@ -376,3 +376,30 @@ def inline_helpers(f, rounds=3, exclude=()):
     cur._cls = getattr(f, '_cls', None)
     cur._inlined_from = f
     return cur
+
+
+def unwrap_delegate(f, depth=3):
+    """Follow thin delegation: while the body of f (docstring aside) is a single `return g(<its own parameters, in order>)` where g is a function of f's module or a method
+    of f's class, continue with g.  Returns the function whose body does the work (f itself when it does)."""
+    for _ in range(depth):
+        body = [s for s in f.body if not (isinstance(s, ast.Expr) and isinstance(s.value, ast.Constant))]
+        if len(body) != 1 or not isinstance(body[0], ast.Return) or not isinstance(body[0].value, ast.Call):
+            return f
+        call = body[0].value
+        params = [p for p in param_names(f) if p not in ('self', 'cls')]
+        args = [a.id for a in call.args if isinstance(a, ast.Name)]
+        if len(args) != len(call.args) or call.keywords or args != params[:len(args)]:
+            return f
+        g = None
+        if isinstance(call.func, ast.Name) and getattr(f, '_mod', None) is not None:
+            r = f._mod.resolve_name(call.func.id)
+            if isinstance(r, ast.FunctionDef):
+                g = r
+        elif isinstance(call.func, ast.Attribute) and isinstance(call.func.value, ast.Name) and call.func.value.id in ('self', 'cls') and getattr(f, '_cls', None) is not None:
+            r = f._cls.find_method(call.func.attr)
+            if r:
+                g = r[1]
+        if g is None or g is f:
+            return f
+        f = g
+    return f
